@@ -52,6 +52,17 @@ Lemma q3_local A B C mAB mBC mCA S :
                ++ [(mAB, S); (mBC, S); (mCA, S)] ++ [(S, mAB); (S, mBC); (S, mCA)]).
 Proof. cbn. perm_explicit. Qed.
 
+(* split_tet_from_face_center: the three triangles that replace the split face carry its directed edges plus the
+   three spokes to the centre, both ways (same orientation as the face) *)
+Lemma fc_local A B C ic :
+  Permutation (dedges (fc_replace A B C ic) ++ dedges_all (fc_faces A B C ic))
+              (dedges [A; B; C] ++ [(A, ic); (B, ic); (C, ic)] ++ [(ic, A); (ic, B); (ic, C)]).
+Proof. cbn. perm_explicit. Qed.
+
+(* split_edge: the split edge (A,B) is replaced by (A,C) and (B,C) is appended *)
+Lemma split_edge_local A B C : se_replace A B C :: se_append A B C = [keyify2 A C; keyify2 B C].
+Proof. reflexivity. Qed.
+
 (* the undirected edges the two operations record are exactly the undirected versions of those directed edges *)
 Lemma loop_edges_cover A B C mAB mBC mCA e :
   In e (dedges_all (loop_tris A B C mAB mBC mCA)) -> In (keyE e) (map keyE (loop_edges A B C mAB mBC mCA)).
